@@ -35,21 +35,21 @@ mutual
         obtain ⟨elt', he, h⟩ := bind_ok h
         obtain ⟨gens', hg, h⟩ := bind_ok h
         cases pure_ok h
-        rw [transf_module_id n hn _ elt elt' he, transfComps_module_id n hn _ gens gens' hg]
+        rw [transf_module_id n hn _ elt elt' he, transfComps_module_id n hn _ _ gens gens' hg]
     | b, .setComp elt gens, e', h => by
         simp only [transf] at h
         obtain ⟨names, _, h⟩ := bind_ok h
         obtain ⟨elt', he, h⟩ := bind_ok h
         obtain ⟨gens', hg, h⟩ := bind_ok h
         cases pure_ok h
-        rw [transf_module_id n hn _ elt elt' he, transfComps_module_id n hn _ gens gens' hg]
+        rw [transf_module_id n hn _ elt elt' he, transfComps_module_id n hn _ _ gens gens' hg]
     | b, .generatorExp elt gens, e', h => by
         simp only [transf] at h
         obtain ⟨names, _, h⟩ := bind_ok h
         obtain ⟨elt', he, h⟩ := bind_ok h
         obtain ⟨gens', hg, h⟩ := bind_ok h
         cases pure_ok h
-        rw [transf_module_id n hn _ elt elt' he, transfComps_module_id n hn _ gens gens' hg]
+        rw [transf_module_id n hn _ elt elt' he, transfComps_module_id n hn _ _ gens gens' hg]
     | b, .dictComp k v gens, e', h => by
         simp only [transf] at h
         obtain ⟨names, _, h⟩ := bind_ok h
@@ -57,7 +57,7 @@ mutual
         obtain ⟨v', hv, h⟩ := bind_ok h
         obtain ⟨gens', hg, h⟩ := bind_ok h
         cases pure_ok h
-        rw [transf_module_id n hn _ k k' hk, transf_module_id n hn _ v v' hv, transfComps_module_id n hn _ gens gens' hg]
+        rw [transf_module_id n hn _ k k' hk, transf_module_id n hn _ v v' hv, transfComps_module_id n hn _ _ gens gens' hg]
     | b, .joinedStr vs, e', h => by
         simp only [transf] at h
         obtain ⟨vs', hvs, h⟩ := bind_ok h
@@ -214,19 +214,19 @@ mutual
         rw [transf_module_id n hn b v v' hv, transfKeywords_module_id n hn b ks r hr]
   termination_by structural _ x => x
 
-  theorem transfComps_module_id (n : Nsp) (hn : n.kind = .module) : ∀ (b : List String) (gs gs' : List Comp),
-      transfComps n b gs = .ok gs' → gs' = gs
-    | b, [], gs', h => by simp only [transfComps] at h; cases h; rfl
-    | b, .mk t i ifs a :: gs, gs', h => by
+  theorem transfComps_module_id (n : Nsp) (hn : n.kind = .module) : ∀ (f b : List String) (gs gs' : List Comp),
+      transfComps n f b gs = .ok gs' → gs' = gs
+    | f, b, [], gs', h => by simp only [transfComps] at h; cases h; rfl
+    | f, b, .mk t i ifs a :: gs, gs', h => by
         simp only [transfComps] at h
         obtain ⟨t', ht, h⟩ := bind_ok h
         obtain ⟨i', hi, h⟩ := bind_ok h
         obtain ⟨ifs', hifs, h⟩ := bind_ok h
         obtain ⟨r, hr, h⟩ := bind_ok h
         cases pure_ok h
-        rw [transfTarget_module_id n hn b t t' ht, transf_module_id n hn b i i' hi, transfList_module_id n hn b ifs ifs' hifs,
-          transfComps_module_id n hn b gs r hr]
-  termination_by structural _ x => x
+        rw [transfTarget_module_id n hn b t t' ht, transf_module_id n hn f i i' hi, transfList_module_id n hn b ifs ifs' hifs,
+          transfComps_module_id n hn b b gs r hr]
+  termination_by structural _ _ x => x
 
   theorem transfTarget_module_id (n : Nsp) (hn : n.kind = .module) : ∀ (b : List String) (t t' : Expr),
       transfTarget n b t = .ok t' → t' = t
